@@ -36,6 +36,30 @@ def normalise(rows):
     return out
 
 
+def candidates_in_chunk(spec, r, o, minute, norm):
+    """How many resting orders of the symbol had their price inside the range of the fast-mode chunk that contains `minute`
+    while they were active (classification of fast-mode findings only)."""
+    from vf.drive.bench import T0
+    step = 1
+    for e in r['trace']:
+        if e['ev'] == 'chunk':
+            step = len(e['candles'])
+            break
+    a = minute - minute % step
+    rng = norm[o['sym']][a:a + step]
+    lo, hi = min(x[3] for x in rng), max(x[2] for x in rng)
+    cnt = 0
+    for q in r['orders']:
+        if q['sym'] != o['sym'] or q['type'] == 'MARKET' or q['price'] is None:
+            continue
+        m0 = int((q['created_at'] - T0) // MIN)
+        end = q['executed_at'] or q['canceled_at']
+        mend = int((end - T0) // MIN) - 1 if end else 10 ** 9
+        if m0 - 1 <= a + step - 1 and mend >= a and lo <= q['price'] <= hi:
+            cnt += 1
+    return cnt
+
+
 def check_run(spec, r):
     from vf.drive.bench import T0
     vios, stats = [], dict(resting=0, filled=0, survived=0, classes=set())
@@ -69,7 +93,8 @@ def check_run(spec, r):
                 if o['executed_at'] != o['created_at']:
                     vios.append((f'C02:sim={sim}:market-order-not-filled-at-submission-time',
                                  f"order {o['ord']} created_at {o['created_at']} executed_at {o['executed_at']} ({(o['executed_at'] - o['created_at']) / MIN} minutes later)"))
-                between = [e['ev'] for e in r['trace'][sub_idx[o['ord']]:exe_idx.get(o['ord'], sub_idx[o['ord']])] if e['ev'] in ('minute', 'chunk')]
+                between = [e['ev'] for e in r['trace'][sub_idx[o['ord']]:exe_idx.get(o['ord'], sub_idx[o['ord']])]
+                           if e['ev'] in ('minute', 'chunk') and e['sym'] == o['sym']]
                 if between:
                     vios.append((f'C02:sim={sim}:candle-processed-before-market-order-filled', f"order {o['ord']}: {len(between)} minute/chunk events between submit and fill"))
             elif o['status'] == 'ACTIVE' and not aborted and s['phase'] != 'terminate':
@@ -103,7 +128,10 @@ def check_run(spec, r):
             early = [m for m in range(m0, f) if inside(m)]
             if early:
                 stats['classes'].add('late-fill')
-                vios.append((f'C02:sim={sim}:late-fill' + (':reaction-order' if reaction else ''),
+                multi = ''
+                if sim == 'fast':
+                    multi = ':multi-candidate-chunk' if candidates_in_chunk(spec, r, o, early[0], norm) >= 2 else ':single-candidate-chunk'
+                vios.append((f'C02:sim={sim}:late-fill{multi}' + (':reaction-order' if reaction else ''),
                              f"order {o['ord']} {o['type']} {o['side']} price {price!r} (submitted for minute {m0}) filled in minute {f} although minute {early[0]} range "
                              f"[{cand[early[0]][3]!r}, {cand[early[0]][2]!r}] already contained it"))
             if f > m0:
@@ -123,7 +151,10 @@ def check_run(spec, r):
                 stats['survived'] += 1
             if hit:
                 stats['classes'].add('missed-fill')
-                vios.append((f"C02:sim={sim}:missed-fill:{'cancelled-later' if c is not None else 'never-filled'}" + (':reaction-order' if reaction else ''),
+                multi = ''
+                if sim == 'fast':
+                    multi = ':multi-candidate-chunk' if candidates_in_chunk(spec, r, o, hit[0], norm) >= 2 else ':single-candidate-chunk'
+                vios.append((f"C02:sim={sim}:missed-fill{multi}" + (':reaction-order' if reaction else ''),
                              f"order {o['ord']} {o['type']} {o['side']} price {price!r} was active from minute {m0} to {last} and minute {hit[0]} range "
                              f"[{cand[hit[0]][3]!r}, {cand[hit[0]][2]!r}] contained its price, but it was not filled"))
     return vios, stats
@@ -157,5 +188,5 @@ def run_shard(acc, shard, nshards, seed, tier):
         return dict(key=key, nontrivial=nt, classes=cl, violations=vios,
                     sample=dict(cfg=spec['cfg'], routes=spec['routes'], fast=spec['fast'], minutes=spec['n'], resting_orders=stats['resting'], filled=stats['filled'],
                                 orders=r['orders'][:3]) if nt else None)
-    runner.hyp_search(acc, sess, chk, 30 if tier == 'quick' else 2500, seed, tier, known=known, shrink_calls=25, max_shrink_sigs=2,
+    runner.hyp_search(acc, sess, chk, 60 if tier == 'quick' else 2500, seed, tier, known=known, shrink_calls=25, max_shrink_sigs=2,
                       describe=lambda spec: dict(spec=spec))
